@@ -1049,6 +1049,176 @@ read(op(S)) = {read_1}").chars().take(1800).collect(), sc, op, json!({"k": k, "w
         remove_file_db(&pristine);
         let _ = args;
     }
+
+    /// The same interleaving with a MIGRATION ORACLE as the reader: `check_step_satisfiability` for a
+    /// broadcast transfer whose installed Orchard anchor is the tree root at a checkpoint P above its
+    /// recorded boundary B. Before a truncation to T (B <= T < P) the anchor is still live
+    /// (`Satisfiable`, as of the scanned tip); after it the anchor is gone (`AnchorInvalidated`, as of
+    /// T). A read that mixes the two snapshots answers `AnchorInvalidated` as of the OLD tip: a mark
+    /// stamped above the truncation that the truncation can never clear.
+    fn explore_oracle_reader(&mut self, idx: u64, sc: &mut Scenario, rng: &mut ChaCha20Rng, n_points: usize) {
+        use zcash_client_sqlite::pool_migration::orchard_ironwood::PoolMigrations;
+        use zcash_pool_migration::engine::{MigrationTransaction, MigrationTransferId, MigrationTxKind, MigrationTxState, PoolMigrationRead};
+        use zcash_pool_migration::satisfiability::ReorgSettleDepth;
+        let Some(master) = sc.w.db.conn().path().map(std::path::PathBuf::from) else { return };
+        let (lo, p_max) = (sc.cx.sim.base_height() + 1, sc.cx.prefix);
+        // heights B < P inside the scanned prefix with different Orchard roots, P the highest such
+        let root = |h: u32| sc.cx.sim.root_at(Pool::Orchard, h);
+        let Some(pp) = (lo + 2..=p_max).rev().find(|h| root(*h) != root(*h - 1)) else {
+            self.r.count("oracle_reader_no_orchard_growth", 1);
+            return;
+        };
+        let Some(b) = (lo..pp.saturating_sub(1)).rev().take(12).filter(|h| root(*h) != root(pp)).last() else {
+            self.r.count("oracle_reader_no_orchard_growth", 1);
+            return;
+        };
+        let t = rng.gen_range(b + 1..pp);
+        let net = sc.cx.sim.net;
+        let branch = u32::from(zcash_protocol::consensus::BranchId::for_height(&net, BlockHeight::from_u32(pp)));
+        let Ok(creator) = pczt::roles::creator::Creator::new(branch, pp + 40, 133, None, Some(root(pp))) else { return };
+        let Ok(built) = creator.build() else { return };
+        let Ok(pczt_bytes) = built.serialize() else { return };
+        let mut txid = [0u8; 32];
+        rand::RngCore::fill_bytes(rng, &mut txid);
+        let txid = zcash_protocol::TxId::from_bytes(txid);
+        let mut nf = [0u8; 32];
+        rand::RngCore::fill_bytes(rng, &mut nf);
+        let mtx = MigrationTransaction::from_parts(
+            MigrationTransferId::new(0), MigrationTxKind::Transfer { crossing: 0 }, pczt_bytes, vec![],
+            BlockHeight::from_u32(b), BlockHeight::from_u32(0), Some(BlockHeight::from_u32(b)), txid,
+            MigrationTxState::Broadcast { txid }, None, None, vec![nf], None,
+        );
+        let settle = ReorgSettleDepth::new(1);
+        let account = sc.w.accounts[0];
+        let _: String = sc.w.db.conn().query_row("PRAGMA journal_mode=WAL", [], |r| r.get(0)).unwrap_or_default();
+        let read_conn = |c: &rusqlite::Connection| -> String {
+            match PoolMigrations::for_account(net, zcash_client_sqlite::util::SystemClock, c, account) {
+                Ok(pm) => format!("{:?}", pm.check_step_satisfiability(&mtx, settle)),
+                Err(e) => format!("for_account: {e:?}"),
+            }
+        };
+        // only the oracle call itself is measured and interleaved (constructing the facade reads
+        // the account row outside the oracle's snapshot)
+        let read_measured = |sc: &Scenario, arm: &dyn Fn()| -> String {
+            match PoolMigrations::for_account(net, zcash_client_sqlite::util::SystemClock, sc.w.db.conn(), account) {
+                Ok(pm) => {
+                    arm();
+                    format!("{:?}", pm.check_step_satisfiability(&mtx, settle))
+                }
+                Err(e) => format!("for_account: {e:?}"),
+            }
+        };
+        let read_s = read_measured(sc, &|| sc.inj.reset());
+        let v_read = sc.inj.steps();
+        let op = OpKind::Truncate(t);
+        let dir = master.parent().unwrap().to_path_buf();
+        let scratch = dir.join(format!("c02-or-{}-{}-{}.sqlite", std::process::id(), idx, rng.r#gen::<u32>()));
+        let _ = sc.w.db.conn().execute_batch("PRAGMA wal_checkpoint(TRUNCATE)");
+        let open_writer = |p: &std::path::Path, cx: &Ctx| -> ChildDb {
+            let conn = rusqlite::Connection::open(p).expect("open");
+            rusqlite::vtab::array::load_module(&conn).expect("rarray");
+            let _ = conn.busy_timeout(std::time::Duration::from_millis(0));
+            let clock = zcash_client_sqlite::util::testing::FixedClock::new(std::time::SystemTime::UNIX_EPOCH + std::time::Duration::from_secs(1740441600));
+            let rng = <rand_chacha::ChaChaRng as rand::SeedableRng>::from_seed([7u8; 32]);
+            let mut db: ChildDb = zcash_client_sqlite::WalletDb::from_connection(conn, cx.sim.net, clock, rng);
+            if let Some(n) = cx.cfg.retention {
+                db = db.with_anchor_retention_interval(zcash_client_backend::data_api::anchor_retention::AnchorRetentionInterval::custom(std::num::NonZeroU32::new(n).unwrap()));
+            }
+            db
+        };
+        copy_file_db(&master, &scratch);
+        let read_1 = {
+            let mut wdb = open_writer(&scratch, &sc.cx);
+            let applied = apply_child(&mut wdb, &sc.cx, &op);
+            drop(wdb);
+            if applied.is_err() {
+                self.r.count("oracle_reader_truncation_not_applicable", 1);
+                remove_file_db(&scratch);
+                return;
+            }
+            let c = rusqlite::Connection::open(&scratch).expect("open scratch");
+            rusqlite::vtab::array::load_module(&c).expect("rarray");
+            read_conn(&c)
+        };
+        remove_file_db(&scratch);
+        self.r.count("oracle_reader_scenarios", 1);
+        if read_1 != read_s {
+            self.r.count("oracle_reader_scenarios_where_truncation_changes_the_answer", 1);
+        }
+        if read_s.contains("Satisfiable") && !read_s.contains("Unsatisfiable") && read_1.contains("AnchorInvalidated") {
+            self.r.count("oracle_reader_scenarios_live_anchor_invalidated_by_truncation", 1);
+        }
+        let pristine = dir.join(format!("c02-or-master-{}-{}.sqlite", std::process::id(), idx));
+        copy_file_db(&master, &pristine);
+        // every step of the (short) read when it is affordable, else a sample
+        let points: Vec<i64> = if (v_read as usize) <= n_points { (1..=v_read.max(1)).collect() } else { choose(v_read.max(1), n_points, rng) };
+        for k in points {
+            if !self.r.time_left() {
+                break;
+            }
+            let cx_addr = (&sc.cx as *const Ctx) as usize;
+            let op2 = op.clone();
+            let master2 = master.clone();
+            let outcome: Arc<Mutex<Option<Result<String, String>>>> = Arc::new(Mutex::new(None));
+            let outcome2 = outcome.clone();
+            let mut done = false;
+            // SAFETY: the probe runs synchronously inside the read below, on this thread, while
+            // `sc.cx` is alive and not mutated.
+            let probe: Box<dyn FnMut(i64) + Send> = Box::new(move |n| {
+                if n == k && !done {
+                    done = true;
+                    let cx: &Ctx = unsafe { &*(cx_addr as *const Ctx) };
+                    let mut wdb = open_writer(&master2, cx);
+                    let r = apply_child(&mut wdb, cx, &op2);
+                    *outcome2.lock().unwrap() = Some(r);
+                }
+            });
+            let probe_cell = std::cell::RefCell::new(Some(probe));
+            let got = read_measured(sc, &|| {
+                sc.inj.reset();
+                sc.inj.set_probe(1, probe_cell.borrow_mut().take().unwrap());
+            });
+            sc.inj.clear_probe();
+            sc.inj.reset();
+            match outcome.lock().unwrap().take() {
+                None => self.r.count("oracle_reader_point_not_reached", 1),
+                Some(Err(e)) => {
+                    self.r.count(if e.contains("Busy") || e.contains("locked") { "oracle_reader_writer_busy" } else { "oracle_reader_writer_failed" }, 1);
+                    if got != read_s {
+                        self.viol("C02:truncate_to_height:migration-oracle-read-changed-although-writer-failed".into(), format!("writer error {e}; read = {got}; read(S) = {read_s}"), sc, &op, json!({"k": k, "b": b, "p": pp, "t": t}));
+                    }
+                }
+                Some(Ok(_)) => {
+                    self.r.count("oracle_reader_interleavings", 1);
+                    self.r.case(&("oracle-reader", got == read_s, got == read_1), true);
+                    if std::env::var("VH_DEBUG").is_ok() {
+                        eprintln!("oracle k={k}/{v_read} got={got} | S={read_s} | 1={read_1}");
+                    }
+                    if got == read_s { self.r.count("oracle_reader_saw_before", 1) } else if got == read_1 { self.r.count("oracle_reader_saw_after", 1) } else {
+                        self.viol("C02:truncate_to_height:migration-oracle-read-saw-mixed-state".into(), format!("check_step_satisfiability (boundary {b}, anchor = Orchard root at {pp}) with a truncation to {t} committed at reader step {k}/{v_read}
+read        = {got}
+read(S)     = {read_s}
+read(op(S)) = {read_1}").chars().take(1500).collect(), sc, &op, json!({"k": k, "b": b, "p": pp, "t": t}));
+                    }
+                }
+            }
+            let src = rusqlite::Connection::open(&pristine).expect("open pristine");
+            if let Err(e1) = copy_db(&src, sc.w.db.conn_mut()) {
+                sc.w.db.conn_mut().flush_prepared_statement_cache();
+                if let Err(e2) = copy_db(&src, sc.w.db.conn_mut()) {
+                    self.r.inconclusive("oracle-reader-master-not-restorable");
+                    if std::env::var("VH_DEBUG").is_ok() {
+                        eprintln!("restore failed: {e1:?} / {e2:?}");
+                    }
+                    break;
+                }
+            }
+            if std::env::var("VH_DEBUG").is_ok() {
+                eprintln!("after restore: {}", read_conn(sc.w.db.conn()));
+            }
+        }
+        remove_file_db(&pristine);
+    }
 }
 
 fn main() {
@@ -1110,6 +1280,9 @@ fn main() {
                 }
                 ex.explore_reader_writer(&args, idx, &mut sc, op, &mut rng, n_focus, true);
             }
+        }
+        if only_op.is_none() && sc.cx.cfg.pools.contains(&Pool::Orchard) {
+            ex.explore_oracle_reader(idx, &mut sc, &mut rng, if thorough { 400 } else { 60 });
         }
         for op in ops.iter().filter(|o| only_op.as_deref().map_or(true, |n| o.name() == n)).take(n_ops) {
             if !ex.r.time_left() {
